@@ -286,7 +286,7 @@ def ti_ops(text):
         yield "release.is_layered", ["set", "release", "is_layered", "maybe"]
     for v in ("", ):
         yield "tree.arch", ["set", "tree", "arch", v]
-    for v in ("abc", "", "12:30"):
+    for v in ("abc", "", "12:30", "inf", "-Infinity", "1e999", "nan"):            # (no number, or a float that is not finite)
         yield "tree.build_timestamp", ["set", "tree", "build_timestamp", v]
     for sec in sorted(doc):
         if sec.startswith(("variant-", "addon-")):
@@ -318,6 +318,8 @@ def ti_ops(text):
         for k in ("discnum", "totaldiscs"):
             for v in ("x", "1.5", ""):
                 yield "media." + k, ["set", "media", k, v]
+        for k in ("discnum", "totaldiscs"):                      # a [media] section states both numbers
+            yield "del media." + k, ["delopt", "media", k]
     # required sections / options
     yield "del[release]", ["delsec", "release"]
     for k in ("name", "version"):
